@@ -95,6 +95,14 @@ def gen_case(seed, tier):
     if r < (0.35 if thorough else 0.25):
         line_p = rng.choice([0.005, 0.02, 0.1])
     knobs['line_p'] = line_p
+    if line_p and rng.random() < 0.6:
+        # aim: one function that touches a long-lived container is pre-empted at (almost) every line
+        from .. import focus, loader
+        import os
+        cands, writers = focus.candidates(os.path.join(loader.glom_src(), 'glom'))
+        pool_ = writers if writers and rng.random() < 0.7 else cands
+        if pool_:
+            knobs['focus_fn'] = rng.choice(pool_)
     knobs['p_point'] = rng.choice([0.0, 0.15, 0.5, 0.5, 1.0])
     knobs['fault_rate'] = rng.choice([0, 0, 0.02, 0.08, 0.25])
     feats = gen.swarm_feats(rng)
@@ -211,6 +219,7 @@ class _World:
             counts_init=counts_init)
         if line_mode and gen_rng is None and only_task is None:
             self.k.enable_line_mode()
+        self.k.focus_fn = kn.get('focus_fn')
         self.nested_log = []
         self.B = build.Builder(self.G, self.k, shared=case.get('shared'), on_nested=self._on_nested,
                                eager_render=eager_render, nested_stub=nested_stub)
